@@ -14,7 +14,7 @@ Here is a semantic property that users of the library rely on:
   code it is anchored in: {', '.join(rec['anchors']['files'][:14])}
 
 Your task: write ONE realistic change to the library source (a plausible bug a maintainer could introduce during a refactor, optimisation or feature change - not sabotage that no reviewer would miss, no test edits) that BREAKS this property, while the library still imports, and the repository's existing test suite still passes. {focus}
-The change must need something specific to manifest - a particular multi-step sequence of operations, an unusual but documented configuration or input (non-square grid, several agents, a boundary value, a late step of an episode, a rare collision), or two cooperating sites that each look fine alone - i.e. NOT something that ordinary use or the existing tests would expose at once. Keep it small (a few lines).
+The change must need something specific to manifest - a particular multi-step sequence of operations, an unusual but documented configuration or input (non-square grid, several agents, a boundary value, a late step of an episode, a rare collision), or two cooperating sites that each look fine alone - i.e. NOT something that ordinary use or the existing tests would expose at once. Keep it small (a few lines). Aim for a defect that even a reasonably thorough randomised test - thousands of random or mask-respecting episodes on the default and a few non-default configurations - would probably still miss, because it needs a deliberately constructed situation.
 
 Deliver, inside the worktree:
  1. the change itself applied to the working tree (leave it uncommitted), and `patch.diff` at the worktree root produced by `git diff > patch.diff` (source files only);
